@@ -183,7 +183,7 @@ func (c *DeviceCodeTokenEndpointHandler) HandleTokenEndpointRequest(ctx context.
 	// Checking of POST client_id skipped, because
 	// if the client type is confidential or the client was issued client credentials (or assigned other authentication requirements),
 	// the client MUST authenticate with the authorization server as described in Section 3.2.1.
-	requester.SetSession(ar.GetSession())
+	requester.SetSession(ar.GetSession().Clone())
 	requester.SetID(ar.GetID())
 
 	atLifespan := fosite.GetEffectiveLifespan(requester.GetClient(), c.getGrantType(requester), fosite.AccessToken, c.Config.GetAccessTokenLifespan(ctx))
